@@ -52,6 +52,7 @@ const (
 	GroupLabel       = "grp"
 	TaintKey         = "verif.local/blocked"
 	MainContainer    = "main"
+	SideContainer    = "side"
 )
 
 // FaultKind is the kind of an injected fault.
@@ -553,7 +554,7 @@ func StdTemplate(id string) *corev1.PodTemplateSpec {
 		ObjectMeta: metav1.ObjectMeta{Labels: map[string]string{"app": "agent"}},
 		Spec: corev1.PodSpec{
 			NodeSelector: map[string]string{FitLabelPrefix + id: "yes"},
-			Containers:   []corev1.Container{{Name: MainContainer, Image: "img:" + id}},
+			Containers:   []corev1.Container{{Name: MainContainer, Image: "img:" + id}, {Name: SideContainer, Image: "side:" + id}},
 		},
 	}
 }
